@@ -149,6 +149,69 @@ func runC18(a *A) {
 		}
 		pi := a.Method("stream", "DataProcessor", "processItem")
 		a.Check(hasRecover(pi), "recover@"+fname(pi), pi.Pos(), "each row is processed under a deferred recover", "processItem has no deferred recover: a row that panics stops all later rows")
+		// consumer loops: a loop of package stream that receives from a channel and hands what it
+		// received (a row, a batch) to a module function must contain the panic per item — the callee
+		// itself defers a recover. A recover around the whole loop ends the goroutine at the first panic
+		// and every later item is silently lost.
+		for _, fn := range a.ModFuncs {
+			if fn.Pkg != a.Pkg("stream") || fn.Blocks == nil {
+				continue
+			}
+			for _, l := range sccLoops(fn) {
+				var recvVals []ssa.Value
+				for b := range l.Blocks {
+					for _, in := range b.Instrs {
+						switch x := in.(type) {
+						case *ssa.UnOp:
+							if x.Op == token.ARROW {
+								recvVals = append(recvVals, x)
+							}
+						case *ssa.Select:
+							for _, st := range x.States {
+								if st.Dir == types.RecvOnly {
+									recvVals = append(recvVals, x)
+								}
+							}
+						}
+					}
+				}
+				if len(recvVals) == 0 {
+					continue
+				}
+				for b := range l.Blocks {
+					for _, in := range b.Instrs {
+						c, ok := in.(*ssa.Call)
+						if !ok {
+							continue
+						}
+						callee := c.Call.StaticCallee()
+						if callee == nil || !a.fnInModule(callee) || callee.Pkg != fn.Pkg {
+							continue
+						}
+						// does an argument carry what was received?
+						carries := false
+						for _, arg := range c.Call.Args {
+							switch arg.Type().Underlying().(type) {
+							case *types.Map, *types.Slice:
+								for x := range backwardSlice(arg, 6) {
+									for _, rv := range recvVals {
+										if x == rv {
+											carries = true
+										}
+									}
+								}
+							}
+						}
+						if !carries {
+							continue
+						}
+						a.Check(hasRecover(callee), "recover-per-item@"+fname(fn)+"->"+callee.Name(), c.Pos(),
+							"the consumer loop hands each received item to a function that contains its own panic",
+							"the consumer loop in "+fname(fn)+" hands each received item to "+fname(callee)+", which has no deferred recover: a panic raised while one item is processed ends the loop (a recover around the loop does not resume it) and every later item is lost")
+					}
+				}
+			}
+		}
 	})
 }
 
